@@ -255,6 +255,10 @@ type Exec struct {
 	clockStrict     bool
 	inInit          map[*ssa.Package]bool
 	clock           *Term
+	clockConcrete   bool
+	clockTicks      int64
+	jsonRecs        []jsonRec
+	crcTabs         map[uint64]*Value
 }
 
 func (x *Exec) replaying() bool { return x.pos < len(x.prefix) }
